@@ -109,6 +109,7 @@ Definition lm_sched9 : list sys_event :=
    (1, EPropose [ex_ent], 0); (2, EDeliver m6, 0); (1, EDeliver m7, 0); (2, EDeliver m8, 1)].
 
 Definition m10 := Eval vm_compute in nthmsg l10 5.
+Definition soup9 := Eval vm_compute in sy_soup l9.
 
 Example ack_nonvacuous :
   exists σ0 sched σ e σ' m a b,
@@ -140,7 +141,8 @@ Proof.
     apply run_nil.
   - change (length (sy_nodes l0)) with 2%nat. lstep_deliver.
   - split; [vm_compute; tauto|]. split.
-    + intro H. vm_compute in H. repeat (destruct H as [H | H]; [discriminate|]). exact H.
-    + split; [reflexivity|]. split; [vm_compute; auto|]. split; [reflexivity|]. split; [vm_compute; auto|].
-      split; [reflexivity|]. split; [reflexivity|]. vm_compute. discriminate.
+    + assert (E : sy_soup l9 = soup9) by (vm_compute; reflexivity). rewrite E. unfold soup9, m10.
+      intro H. simpl in H. repeat (destruct H as [H | H]; [discriminate|]). exact H.
+    + split; [vm_compute; reflexivity|]. split; [vm_compute; auto|]. split; [vm_compute; reflexivity|]. split; [vm_compute; auto|].
+      split; [vm_compute; reflexivity|]. split; [vm_compute; reflexivity|]. vm_compute. discriminate.
 Qed.
